@@ -33,10 +33,9 @@ Theorem C14_poll2_order :
      (cstep s4 (LSettingsLocal c5) = SOk s5 o5 FNext -> can_recv s5 = true)))).
 Proof. exact poll2_order. Qed.
 
-(* no assert!/assert_eq!/debug_assert_eq! of settings.rs / ping_pong.rs / go_away.rs / connection.rs fires (label_ok excludes
-   only handle_poll2_result being handed a stream error with Initiator::User by the stream layer) *)
+(* no assert!/assert_eq!/debug_assert_eq! of settings.rs / ping_pong.rs / go_away.rs / connection.rs (and Recv::go_away) fires *)
 Theorem C14_no_assert :
-  forall p0 ls, forallb label_ok ls = true -> match crun (init p0) ls with inr (_, SPanic _) => False | _ => True end.
+  forall p0 ls, match crun (init p0) ls with inr (_, SPanic _) => False | _ => True end.
 Proof. exact C15_no_assert. Qed.
 
 Theorem C14_stray_ack :
